@@ -8,6 +8,7 @@
 package main
 
 import (
+	"context"
 	"encoding/json"
 	"flag"
 	"fmt"
@@ -373,13 +374,22 @@ func runBatch(bin, prop string, seed uint64, n, chunk, workers int, deadline tim
 					args = append(args, "-samples", strconv.Itoa(samples))
 				}
 				args = append(args, extra...)
-				cmd := exec.Command(bin, args...)
+				// a chunk normally takes seconds; a worker that is still running long after
+				// the batch deadline means a library call does not return
+				ctx, cancel := context.WithDeadline(context.Background(), deadline.Add(5*time.Minute))
+				cmd := exec.CommandContext(ctx, bin, args...)
 				cmd.Env = append(os.Environ(), "GOMAXPROCS=2")
 				ob, err := cmd.CombinedOutput()
+				timedOut := ctx.Err() != nil
+				cancel()
 				if err != nil {
 					mu.Lock()
 					if b.workerErr == "" {
-						b.workerErr = fmt.Sprintf("worker %v failed: %v\n%s", args, err, tail(string(ob), 4000))
+						if timedOut {
+							b.workerErr = fmt.Sprintf("worker %v did not finish within 5 minutes after the batch deadline (a library call that does not return?)", args)
+						} else {
+							b.workerErr = fmt.Sprintf("worker %v failed: %v\n%s", args, err, tail(string(ob), 4000))
+						}
 					}
 					mu.Unlock()
 					continue
@@ -625,7 +635,9 @@ func replayFile(bin, path string) *violation {
 }
 
 func replayOnce(bin, path string) *violation {
-	cmd := exec.Command(bin, "replay", "-trace", path, "-known", filepath.Join(verifDir, "known_findings.txt"))
+	ctx, cancel := context.WithTimeout(context.Background(), 2*time.Minute)
+	defer cancel()
+	cmd := exec.CommandContext(ctx, bin, "replay", "-trace", path, "-known", filepath.Join(verifDir, "known_findings.txt"))
 	out, _ := cmd.Output()
 	var rr runResult
 	lines := strings.Split(strings.TrimSpace(string(out)), "\n")
